@@ -78,6 +78,18 @@ class Sim(Layout):
         self.depth -= 1
         return r
 
+    def stmt(self, st, env, fi):
+        # assertions are part of the behaviour a scenario observes: a failing one ends the run like the AssertionError would
+        if isinstance(st, ast.Assert) and getattr(self, "check_asserts", False):
+            try:
+                ok = self.test(st.test, env, fi)
+            except LayoutUnknown:
+                return
+            if not ok:
+                raise LayoutUnknown("assert failed at %s:%d" % (fi.qualname if fi else "?", st.lineno))
+            return
+        return Layout.stmt(self, st, env, fi)
+
     # -- hooks ---------------------------------------------------------------------------
     def test(self, node, env, fi):
         txt = ast.unparse(node)
@@ -209,6 +221,11 @@ class Sim(Layout):
 
     def _e_Attribute(self, n, env, fi):
         o = self.ev(n.value, env, fi)
+        ah = getattr(self, "attr_hooks", None)
+        if ah and n.attr in ah:
+            r = ah[n.attr](o)
+            if r is not NotImplemented:
+                return r
         if isinstance(o, Obj):
             if n.attr in o.attrs:
                 return o.attrs[n.attr]
